@@ -291,11 +291,18 @@ def rules_T3(oa):
             key = "%s.num_iterations" % oa.ret_var
             # assigned on this path?  (var_key tracking: tags are chi2-only, so use a must-assigned scan instead)
     # every return must be dominated by a num_iterations store
-    dom = cfg.dominators()
-    stores = [n for n in cfg.reachable() if cfg.kind[n] == "stmt" and field_store(oa, cfg.stmt[n], "num_iterations")]
+    # every path from the entry to a return passes through a num_iterations store (store nodes removed => return unreachable)
+    stores = {n for n in cfg.reachable() if cfg.kind[n] == "stmt" and field_store(oa, cfg.stmt[n], "num_iterations")}
+    seen, todo = {cfg.entry}, [cfg.entry]
+    while todo:
+        m = todo.pop()
+        for m2, _lab in cfg.succ.get(m, []):
+            if m2 not in seen and m2 not in stores:
+                seen.add(m2)
+                todo.append(m2)
     for n in oa.return_nodes:
         oa.add("C12-T3/num_iterations-before-return@%d" % oa.return_nodes.index(n), "C12-T3-bookkeeping",
-               any(m in dom[n] for m in stores), "a return is reachable without num_iterations having been set", cfg.stmt[n])
+               n not in seen, "a return is reachable without num_iterations having been set", cfg.stmt[n])
 
 
 # ------------------------------------------------------------------------------------------------ T4 verbose is inert
